@@ -76,7 +76,8 @@ def check(an: Analysis) -> None:
                 ob2.fail(f, root[0], "the root logger is used although a scope may be current")
             if within(scoped[0], hs[0]):
                 ob2.fail(f, scoped[0], "scoped logging happens only in the fallback")
-        if root[0].func.value.args or root[0].func.value.keywords:  # type: ignore[union-attr]
+        ga_ = [*root[0].func.value.args, *[k.value for k in root[0].func.value.keywords]]  # type: ignore[union-attr]
+        if ga_ and not (len(ga_) == 1 and isinstance(ga_[0], ast.Constant) and ga_[0].value in (None, "root")):  # getLogger("root") is the root logger (3.9+)
             ob2.fail(f, root[0], "outside any scope messages must go to the *root* logger")
         # ctx.log_* forwarding
         cf = prog.fn(f"context.access.ctx.{name}")
@@ -143,22 +144,33 @@ def check(an: Analysis) -> None:
     emits = calls_to(an, slog, "logging.Logger.log")
     dl = Deps(prog, slog)
     lp = slog.param_names()
-    if len(emits) != 1:
-        ob.fail(slog, None, f"ScopeMetrics.log emits {len(emits)} records per call (must be exactly one)")
-    else:
-        from ..kinds import normal_only
+    from ..kinds import Scenario as _ScnL
+    from ..kinds import normal_only
 
-        gl = an.cfg(slog)
-        en = [n for n in gl.nodes if n.kind == "call" and n.ast is emits[0]]
-        w = gl.must_pass(lambda n: n in en, exits=("exit-return",), skip_edge=normal_only)
-        if w is not None:
-            ob.fail(slog, emits[0], "a path through ScopeMetrics.log returns without handing the record to the logger (level filtering belongs to the logger at call time): a message the logger would accept is lost", CFG.show_path(w))
+    gl = an.cfg(slog)
+    va0_ = slog.node.args.vararg.arg if slog.node.args.vararg else ""
+    # one record per call - judged per situation (with / without format arguments): an emission written once per branch of
+    # `if args:` is one emission on every path
+    live_in: dict[bool, list] = {}
+    for has_args_ in (True, False):
+        scl = _ScnL(gl, dl, lambda x, h=has_args_: (["arg"] if h else []) if is_name(x, va0_) else NOVALUE)
+        en_all = [n for n in gl.nodes if n.kind == "call" and any(n.ast is e_ for e_ in emits) and n.id in scl.reach]
+        live_in[has_args_] = en_all
+        if len(en_all) != 1:
+            ob.fail(slog, None, f"ScopeMetrics.log emits {len(en_all)} records per call {'with' if has_args_ else 'without'} format arguments (must be exactly one)")
+        else:
+            w = gl.must_pass(lambda n: n in en_all, exits=("exit-return",), skip_edge=lambda a, b, lab: normal_only(a, b, lab) or scl.skip(a, b, lab))
+            if w is not None:
+                ob.fail(slog, en_all[0].ast, "a path through ScopeMetrics.log returns without handing the record to the logger (level filtering belongs to the logger at call time): a message the logger would accept is lost", CFG.show_path(w))
+    only_without_args = {id(n.ast) for n in live_in[False]} - {id(n.ast) for n in live_in[True]}
     for c in emits:
         ob.inst(slog, c)
         ob6.inst(slog, c)
         if dotted(c.func.value) != "self._logger":  # type: ignore[union-attr]
             ob.fail(slog, c, "the record does not go to the scope's logger")
         ok = len(c.args) == 3 and is_name(c.args[0], lp[1]) and isinstance(c.args[2], ast.Starred) and is_name(c.args[2].value, slog.node.args.vararg.arg)
+        if not ok and id(c) in only_without_args:
+            ok = len(c.args) == 2 and is_name(c.args[0], lp[1])  # reached only when there are no format arguments: nothing to pass on
         ev = next((k.value for k in c.keywords if k.arg == "exc_info"), None)
         if not ok or not is_name(ev, "exception"):
             ob.fail(slog, c, "level / *args / exception are not passed on to the logger unchanged")
@@ -175,6 +187,8 @@ def check(an: Analysis) -> None:
             continue
         for named in (True, False):
             for has_args in (True, False):
+                if not any(n.ast is c for n in live_in[has_args]):
+                    continue  # this emission is not the one made in that situation
                 tf = TextFlow(an, slog, init, named, has_args)
                 leaves = tf.leaves(c.args[1], slog)
                 if leaves is None:
@@ -323,6 +337,27 @@ class TextFlow:
             finally:
                 self._comp_binds[(fn.qualname, e.id)] = saved  # type: ignore[attr-defined]
         if isinstance(e, ast.Name):
+            # bound by unpacking a tuple prepared earlier: `plain, escaped = self._prefixes`
+            unp = [(st, k) for st in fn.own_nodes() if isinstance(st, ast.Assign) and len(st.targets) == 1 and isinstance(st.targets[0], ast.Tuple) for k, t_ in enumerate(st.targets[0].elts) if isinstance(t_, ast.Name) and t_.id == e.id]
+            if len(unp) == 1 and len(d.defs(fn, e.id)) == 1:
+                st_, k_ = unp[0]
+                src = unwrap(st_.value)
+                n_ = len(st_.targets[0].elts)  # type: ignore[union-attr]
+                cands_: list[tuple[ast.AST, FunctionInfo]] = []
+                if isinstance(src, ast.Tuple) and len(src.elts) == n_:
+                    cands_ = [(src.elts[k_], fn)]
+                elif isinstance(src, ast.Attribute) and is_name(src.value, "self"):
+                    vals_ = [unwrap(v_) for v_ in self.cls.attr_val.get(src.attr, [])]
+                    if vals_ and all(isinstance(v_, ast.Tuple) and len(v_.elts) == n_ for v_ in vals_):
+                        cands_ = [(v_.elts[k_], self.init) for v_ in vals_]  # type: ignore[union-attr]
+                if cands_:
+                    out_u: list[_Leaf] = []
+                    for ce, cf in cands_:
+                        sub = self.leaves(ce, cf, esc, brace, pct, depth - 1)
+                        if sub is None:
+                            return None
+                        out_u += sub
+                    return out_u
             if fn is self.slog and e.id == self.message:
                 return [_Leaf("message", esc, brace, pct)]
             if fn is self.init and e.id == "scope":
